@@ -147,7 +147,7 @@ def prove_path(entry, path, opts):
             res.setdefault('models', {})[name] = rs[lab][1][:4000]
         else:
             res['claims'][name] = 'undecided'; res['undecided'].append(name)
-    if cexchecks:
+    if cexchecks and not opts.get('no_cex'):
         rc = smt.run_checks(pre, cexchecks[:8], per_check_ms=opts.get('cex_ms', 10000), jobs=opts.get('jobs', 4), models=True, tactic='qfnra-nlsat')
         res['cex_models'] = {}
         for lab, _ in cexchecks[:8]:
